@@ -235,6 +235,15 @@ def run(prog):
                 # read through the type's own reader, whose contract (table[label]) is the instance above
                 if mir.is_call(x, "var_weight") and len(x[2]) == 2 and mir.is_call(strip(x[2][1]), "label"):
                     return strip(strip(x[2][1])[2][0])
+                # ... or through another reader of the same type (`try_var_weight`, `entry`) that reads the table at the
+                # label it is given
+                if mir.is_call(x) and (x[1].local or getattr(x[1], "res_local", False)) and len(x[2]) == 2 and \
+                        mir.is_call(strip(x[2][1]), "label"):
+                    hs_ = [h for h in prog.resolve(x[1]) if h.kind != "Closure"]
+                    if len(hs_) == 1 and hs_[0].terms.ret is not None:
+                        body = show(hs_[0].terms.ret, -20)
+                        if "var_to_val" in body and ("value_usize(arg2)" in body or "value(arg2)" in body):
+                            return strip(strip(x[2][1])[2][0])
             return None
 
         def component(t):
